@@ -57,6 +57,10 @@ type Std1Opts struct {
 func NewStd1(w *World, o Std1Opts) *Std1 {
 	if o.LocalID == "" {
 		o.LocalID = "10.0.0.1"
+		if o.Vary && o.RemoteID == "" && w.Chance(1, 2, "vary-dominance") {
+			o.LocalID = "10.0.0.9" // the local speaker has the higher identifier
+			w.Probe("config:local-identifier-higher")
+		}
 	}
 	if o.RemoteID == "" {
 		o.RemoteID = "10.0.0.2"
